@@ -415,6 +415,8 @@ def dead_worker_replaced(run, db):
                     if r["k"] == "call":
                         return bool(r["call"].matches(r"HashMap::<K, V, S, A>::(get|get_mut)$|(^|::)Future::poll$"))
                     return False
+                if roots and all(r["k"] == "agg" and not r["stmt"]["rv"].get("ops") for r in roots):
+                    continue        # a test of a constant (async-trait's `if let Some(ret) = None::<Ret>` prologue): not a condition
                 if not roots or not all(okroot(r) for r in roots):
                     extra.append("%s edge of a test on %s" % ("/".join(dom), sorted(set((r["call"].name.split("::")[-1] if r["k"] == "call" else r["k"]) for r in roots)) or "?"))
             run.check(not extra, "replace-unconditional@%s" % ("terminated" if c is rw[0] else "failed" if len(rw) > 1 and c is rw[1] else "x"),
@@ -497,6 +499,8 @@ def settings_reach_workers(run, db):
                 if not dom:
                     continue
                 rr = f.origins(info["disc_place"]) if info.get("disc_place") else f.origins(t["discr"])
+                if rr and all(r["k"] == "agg" and not r["stmt"]["rv"].get("ops") for r in rr):
+                    continue        # a test of a constant (async-trait prologue): not a condition
                 ok = info.get("kind") == "enum" and (info.get("disc_adt") or "").endswith("option::Option") and rr and all(
                     r["k"] in ("upvar", "arg") or (r["k"] == "call" and r["call"].matches(r"Iterator::next$|::next$")) for r in rr)
                 if not ok:
